@@ -30,7 +30,8 @@ DIAG = {"cache_hits", "cache_misses", "cache_used", "cache_enabled", "cache_hit"
         "t2.cache_evictions", "t2.cache_bytes"}
 KINDS = ["repeat", "other-agent", "edge-replace-same-count", "node-label-change", "episode-add", "apply", "kill-switch-turn", "cfg:k_retrieval", "cfg:ranking",
          "cfg:sim_threshold", "cfg:owner_scope", "cfg:now", "cfg:now-same-day", "cfg:residual_cap", "cfg:tiers", "cfg:exact_recent_days", "cfg:hybrid", "gel-edge-change",
-         "cfg:t1.queue_budget", "cfg:t1.decay", "slice-cap", "switch-state", "node-add", "edge-add"]
+         "cfg:t1.queue_budget", "cfg:t1.decay", "slice-cap", "switch-state", "node-add", "edge-add",
+         "switch-state-reordered", "text-variant"]
 
 
 def gen_history(rng, kind=None):
@@ -73,11 +74,17 @@ def gen_history(rng, kind=None):
         m = {"op": "mutate", "kind": kind, "r": rng.random(), "i": rng.randint(0, 10 ** 6)}
         ops.append(m)
         ag2 = agent
+        if kind == "text-variant":
+            # the same words spelled differently (case, runs of blanks): another query string for retrieval
+            text = rng.choice([text.upper(), text.replace(" ", "  "), " " + text + " ", text.title(), text.replace(" ", "\t")])
         if kind == "other-agent":
             ag2 = "B" if agent == "A" else "A"
         ops.append({"op": "turn", "agent": ag2, "text": text})
         agent = ag2
-    return {"world": world, "cfg": base, "ops": ops, "kind": kind, "variant": variant}
+    raw_t1 = {}
+    if kind == "switch-state-reordered" and rng.random() < 0.8:
+        raw_t1 = {"relax_cap": rng.choice([1, 1, 2, 3])}
+    return {"world": world, "cfg": base, "ops": ops, "kind": kind, "variant": variant, "raw_t1": raw_t1}
 
 
 class CountingCache:
@@ -188,6 +195,7 @@ def check_history(case, sess: Session):
     kind = case["kind"]
     off = {"t1": {"cache": {"enabled": False}}, "t2": {"cache": {"enabled": False}}, "t4": {"cache": {"enabled": False}}}
     cfg_c = copy.deepcopy(case["cfg"])
+    raw_t1 = case.get("raw_t1") or {}
     cfg_u = deep_merge(copy.deepcopy(case["cfg"]), off)
     if "perf" in cfg_u:
         cfg_u["perf"] = {"enabled": True}  # same perf master switch, no byte caches
@@ -198,6 +206,20 @@ def check_history(case, sess: Session):
         return
     with ec, eu:
         envs = {"C": [ec], "U": [eu]}
+        for e_ in (ec, eu):
+            for k_, v_ in raw_t1.items():  # keys the stage reads but the validator does not list (set after validation)
+                e_.cfg["t1"][k_] = v_
+        if kind == "switch-state-reordered":
+            # a second engine state holding the SAME nodes / edges / episodes, inserted in the opposite order: propagation
+            # walks out-edges in store order, so under a relaxation cap the two states legitimately give different results
+            w2 = copy.deepcopy(case["world"])
+            for g in w2["graphs"].values():
+                g["edges"].reverse()
+                g["nodes"].reverse()
+            ec2, eu2 = TurnEnv(cfg_c, copy.deepcopy(w2), cfg_obj=ec.cfg), TurnEnv(cfg_u, copy.deepcopy(w2), cfg_obj=eu.cfg)
+            ec2.__enter__(); eu2.__enter__()
+            envs["C"].append(ec2)
+            envs["U"].append(eu2)
         if kind == "switch-state":
             # a second, independent engine state per engine: same graph ids and node/edge counts, other content
             w2 = copy.deepcopy(case["world"])
@@ -221,8 +243,10 @@ def check_history(case, sess: Session):
         try:
             for oi, op in enumerate(case["ops"]):
                 if op["op"] == "mutate":
-                    if kind == "switch-state":
+                    if kind in ("switch-state", "switch-state-reordered"):
                         cur = 1 - cur
+                    elif kind == "text-variant":
+                        pass
                     elif kind == "apply":
                         pass  # realised as the next turn carrying deltas
                     elif kind == "kill-switch-turn":
@@ -288,7 +312,7 @@ def check_history(case, sess: Session):
                 sess.count("twin_turns")
                 if oi == len(case["ops"]) - 1:
                     sess.sample({"mutation_kind": kind, "cache_variant": case["variant"], "cfg": case["cfg"], "ops": case["ops"]})
-                tcase = {"world": case["world"], "cfg": case["cfg"], "ops": case["ops"][:oi + 1], "kind": kind, "variant": case["variant"]}
+                tcase = {"world": case["world"], "cfg": case["cfg"], "ops": case["ops"][:oi + 1], "kind": kind, "variant": case["variant"], "raw_t1": raw_t1}
                 c, u = res["C"], res["U"]
                 if c["r"]["exc"] or u["r"]["exc"]:
                     if bool(c["r"]["exc"]) != bool(u["r"]["exc"]):
@@ -339,7 +363,7 @@ def check_history(case, sess: Session):
                 if d1 is not None or d2 is not None:
                     return  # states have diverged; stop this history
         finally:
-            if kind == "switch-state":
+            if kind in ("switch-state", "switch-state-reordered"):
                 for e in (envs["C"][1], envs["U"][1]):
                     e.__exit__(None, None, None)
 
